@@ -557,8 +557,8 @@ func c14r2(c *Ctx) {
 	// writer: sign byte and magnitude
 	me := c.P.Env(mar)
 	a, buf := "P:"+paramName(mar.Params[1]), "P:"+paramName(mar.Params[2])
-	neg := leAtom("Sign("+a+")").scale(-1).addK(-1).String() // Sign(a) < 0
-	nonneg := leAtom("Sign(" + a + ")").String()              // Sign(a) >= 0
+	neg := leAtom("Sign(" + a + ")").scale(-1).addK(-1).String() // Sign(a) < 0
+	nonneg := leAtom("Sign(" + a + ")").String()                 // Sign(a) >= 0
 	nsign := 0
 	for _, b := range mar.Blocks {
 		for _, in := range b.Instrs {
